@@ -32,6 +32,11 @@ CLAIMED["C06"] = dict(
    note="assumed extern contracts: utf8.DecodeRune, bytes.HasPrefix/Index/LastIndexByte/Count/ReplaceAll, strings.ContainsRune, strings.Builder, strconv, the two anchored regexps of the package; Token.Kind/Pos assumed pure; machine-int-as-math",
    ref="DESIGN.md §4 C06")
 
+CLAIMED["C20"] = dict(
+   text="The serializer side of the round trip is under contract: for every code point the text written by serializeName / serializeStringValue / serializeURL is one of the forms the CSS Syntax tokenizer decodes back to that code point in that context (raw only where allowed, backslash escape only for non-hex non-newline ASCII, or a hexadecimal escape), proved by case analysis over a symbolic rune; the exponent-disambiguating escape of a dimension unit decodes to the unit's own first letter; the closing quote is written only for unflagged strings; serializers do not panic. The separator table is checked against the CSS Syntax 3 §9 table by an EXHAUSTIVE bounded enumeration (35x35 type-name pairs, labelled bounded, not counted as proved). tokenize(serialize(x)) == x end-to-end is NOT decided (token values are out of reach, see C06).",
+   note="string(rune) and strconv.FormatInt are uninterpreted (UTF-8 facts for ASCII only); values assumed NUL-free (the tokenizer replaces NUL); io.StringWriter.WriteString havocs the heap; badPairs checked by bounded enumeration only",
+   ref="DESIGN.md §4 C20")
+
 NOT_YET = {}
 
 NA = {
